@@ -908,6 +908,37 @@ def _digits(fn):
     return m
 
 
+def _ax_pow(args, res):
+    x, y = to_real(args[0]), to_real(args[1])
+    return z3.And(z3.Implies(x == 1, res.t == 1), z3.Implies(y == 0, res.t == 1), z3.Implies(y == 1, res.t == x),
+                  z3.Implies(x > 0, res.t > 0))
+
+
+def _nat_pow(a, r):
+    x, y = float(a[0]), float(a[1])
+    ok = True
+    if x == 1 or y == 0:
+        ok = ok and r == 1
+    if y == 1:
+        ok = ok and r == x
+    if x > 0 and _math.isfinite(r) and r != 0:
+        ok = ok and r > 0
+    return ok
+
+
+def _safe_pow(x, y):
+    try:
+        r = float(x) ** float(y)
+        return r if isinstance(r, float) else 0.0
+    except Exception:
+        return 0.0
+
+
+POWF = uf('py_pow', ['real', 'real'], 'real', _safe_pow, axiom=(
+    'x**y: 1**y == 1, x**0 == 1, x**1 == x, x > 0 => x**y > 0 (barring underflow to 0)', _ax_pow, _nat_pow,
+    [[1.0, 5.0], [2.0, 0.0], [3.5, 1.0], [2.0, -3.0], [0.5, 10.0], [1.0, -2.5]]))
+
+
 def py_pow(it, a, b):
     """a ** b on symbolic numbers, with Python's exceptions (DESIGN 2.4)."""
     a, b = num(lift(a)), num(lift(b))
@@ -919,8 +950,7 @@ def py_pow(it, a, b):
         raise RaiseEx(ZeroDivisionError('0.0 cannot be raised to a negative power'))
     if it.branch(Sym(z3.And(ra < 0, z3.Not(z3.IsInt(rb))), 'bool')):
         return SymComplex()
-    USED_UFS.add('py_pow')
-    return Sym(S.POW(ra, rb), 'real')
+    return POWF(Sym(ra, 'real'), Sym(rb, 'real'))
 
 
 class SymComplex(SymObject):
@@ -1163,7 +1193,7 @@ def _npf_model(name, params):
                         raise Unsupported('npf when=')
             elif not is_sym(v):
                 v = lift(v) if is_prim(v) else m_float(it, v)
-            vals.append(num(v))
+            vals.append(num(lift(v)))
         key = 'npf.' + name
         if key not in NP_UF:
             NP_UF[key] = uf('npf_' + name, ['real'] * len(params), 'real',
@@ -1244,5 +1274,4 @@ _patch_truth()
 def py_pow_spec(a, b):
     """spec-level power on (symbolic) numbers: the uninterpreted IEEE power function the code is modelled with"""
     a, b = num(lift(a)), num(lift(b))
-    USED_UFS.add('py_pow')
-    return Sym(S.POW(to_real(a), to_real(b)), 'real')
+    return POWF(Sym(to_real(a), 'real'), Sym(to_real(b), 'real'))
